@@ -96,7 +96,7 @@ Qed.
 (* reply_step has three outcomes *)
 Lemma reply_step_cases s k :
   reply_step s k = s \/ reply_step s k = set_cpc s k (CDone ROk) \/
-  exists i, reply_step s k = set_rpc s i (RAtRead (status_ s)).
+  exists i, reply_step s k = set_cpc (set_rpc s i (RAtRead (status_ s))) k (CDone RClosed).
 Proof.
   unfold reply_step. destruct (nth_error (calls s) k) as [cl|]; [|auto].
   destruct (c_pc cl); auto.
@@ -386,3 +386,224 @@ Proof.
   apply (reachable_ind_inv (fun s => budget s = n)); [reflexivity|].
   intros s0 e H. rewrite budget_step. exact H.
 Qed.
+
+(* ------------------------------------------------------------------------------------ *)
+(* Consequences of the invariant, in the form the property file states them.            *)
+
+Lemma attempts_bounded_lemma n uid p d s :
+  reachable n uid p d s -> (0 <= n)%Z ->
+  Forall (fun x => (Z.of_nat (fst x) <= 1 + n)%Z) (rounds s) /\
+  (forall r, lock s = Some r -> (Z.of_nat (r_att r) <= 1 + n)%Z \/ r_pc r = RdLocked).
+Proof.
+  intros R Hn. pose proof (budget_reachable _ _ _ _ _ R) as B.
+  destruct (Inv_reachable _ _ _ _ _ R) as (_ & _ & Ha & _).
+  unfold view_of in Ha; cbn [v_budget v_lock v_rounds] in Ha. rewrite B in Ha. destruct (Ha Hn) as [Hl Hr]. split.
+  - eapply Forall_impl; [|exact Hr]. cbn beta. intros; lia.
+  - intros r L. rewrite L in Hl. destruct (r_pc r); auto; left; lia.
+Qed.
+
+Lemma hooks_lemma n uid p d s :
+  reachable n uid p d s ->
+  Forall (fun h => fst h = true) (hooks s) /\
+  length (filter (fun h => accepts (snd h)) (hooks s)) = okrounds s + hook_pending (lock s) /\
+  okrounds s = length (filter (fun x => snd x) (rounds s)).
+Proof.
+  intros R. destruct (Inv_reachable _ _ _ _ _ R) as (_ & _ & _ & H1 & H2 & H3 & _). auto.
+Qed.
+
+Lemma wedged_lemma n uid p d s : reachable n uid p d s -> wedged s = false.
+Proof. intros R. destruct (Inv_reachable _ _ _ _ _ R) as (H & _). exact H. Qed.
+
+Lemma status_phase_lemma n uid p d s :
+  reachable n uid p d s ->
+  match lock s with
+  | None => status_unlocked (status_ s)
+  | Some r => match r_pc r with
+              | RdLocked => status_unlocked (status_ s)
+              | RdDial | RdReset _ => status_dialing (status_ s)
+              | RdHook _ => status_hooking (status_ s)
+              end
+  end.
+Proof. intros R. destruct (Inv_reachable _ _ _ _ _ R) as (_ & H & _). exact H. Qed.
+
+Lemma transient_status_owned n uid p d s :
+  reachable n uid p d s -> status_ s = SRedialing \/ status_ s = SPreparing ->
+  exists r, lock s = Some r /\ r_pc r <> RdLocked.
+Proof.
+  intros R Hs. pose proof (status_phase_lemma _ _ _ _ _ R) as H.
+  destruct (lock s) as [r|].
+  - exists r. split; [reflexivity|]. destruct (r_pc r); try discriminate. exfalso. st_solve.
+  - exfalso. st_solve.
+Qed.
+
+Lemma id_kept_lemma n p d s :
+  reachable n true p d s -> status_ s = SOk -> id s = IdUser.
+Proof.
+  intros R Hs. pose proof (status_phase_lemma _ _ _ _ _ R) as Hp.
+  destruct (Inv_reachable _ _ _ _ _ R) as (_ & _ & _ & _ & _ & _ & _ & [H|[_ (r & v & L & P)]]); [exact H|].
+  unfold view_of in L; cbn in L. rewrite L, P in Hp. exfalso. st_solve.
+Qed.
+
+Lemma id_refreshed_lemma n p d s :
+  reachable n false p d s -> status_ s = SOk -> id s = IdAddr (conn s).
+Proof.
+  intros R Hs. pose proof (status_phase_lemma _ _ _ _ _ R) as Hp.
+  destruct (Inv_reachable _ _ _ _ _ R) as (_ & _ & _ & _ & _ & _ & _ & [H|[_ (r & v & L & P)]]); [exact H|].
+  unfold view_of in L; cbn in L. rewrite L, P in Hp. exfalso. st_solve.
+Qed.
+
+(* D4: when the range over the n tabled calls completes, each of them that was waiting for
+   a reply has been completed with connection-closed; none is left waiting *)
+Lemma calls_set_rpc s i p : calls (set_rpc s i p) = calls s.
+Proof. unfold set_rpc. destruct (nth_error (readers s) i) as [[c q]|]; reflexivity. Qed.
+
+Lemma nth_firstn {A} (l : list A) : forall n k, k < n -> nth_error (firstn n l) k = nth_error l k.
+Proof.
+  induction l as [|a l IH]; intros [|n] [|k] Hk; cbn; try lia; try reflexivity.
+  apply IH. lia.
+Qed.
+
+Definition cancelled (cl : call) : call :=
+  match c_pc cl with
+  | CAwait _ => mkCall (c_hold cl) (c_ready cl) (CDone RClosed)
+  | _ => cl
+  end.
+
+Lemma d4_lemma s i c x n :
+  nth_error (readers s) i = Some (c, RWantMu x n) ->
+  existsb holds_mu (firstn n (calls s)) = false ->
+  forall k cl, k < n -> nth_error (calls s) k = Some cl ->
+    nth_error (calls (reader_step s i)) k = Some (cancelled cl) /\
+    (forall c', c_pc (cancelled cl) <> CAwait c') /\ holds_mu cl = false.
+Proof.
+  intros Hr Hmu k cl Hk Hc. unfold reader_step. rewrite Hr, Hmu.
+  assert (E : nth_error (cancel_all (firstn n (calls s)) ++ skipn n (calls s)) k = Some (cancelled cl)).
+  { assert (Hf : nth_error (firstn n (calls s)) k = Some cl) by (rewrite nth_firstn; assumption).
+    rewrite nth_error_app1.
+    - unfold cancel_all. rewrite nth_error_map, Hf. reflexivity.
+    - unfold cancel_all. rewrite map_length. apply nth_error_Some. congruence. }
+  split; [|split].
+  - destruct x; rewrite calls_set_rpc; exact E.
+  - intros c'. unfold cancelled. destruct (c_pc cl) eqn:E0; cbn; rewrite ?E0; congruence.
+  - assert (Hf : nth_error (firstn n (calls s)) k = Some cl) by (rewrite nth_firstn; assumption).
+    apply nth_error_In in Hf. destruct (holds_mu cl) eqn:E2; [|reflexivity].
+    assert (existsb holds_mu (firstn n (calls s)) = true) by (apply existsb_exists; eauto). congruence.
+Qed.
+
+(* a reader-owned round that fails is followed by D8 *)
+Lemma d8_lemma s i c :
+  nth_error (readers s) i = Some (c, RAfterFail) ->
+  let s' := reader_step s i in
+  status_ s' = SPassiveClosed /\ notified s' = (if Nat.eqb (notified s) 0 then 1 else notified s) /\
+  dischooks s' = S (dischooks s) /\ health s' = negb (Z.eqb (budget s) 0).
+Proof.
+  intros Hr. unfold reader_step. rewrite Hr. cbn zeta.
+  unfold set_rpc, d8. cbn. rewrite Hr. cbn. auto.
+Qed.
+
+(* ------------------------------------------------------------------------------------ *)
+(* Witness schedules (each was also forced on the implementation through the gates).     *)
+
+Definition internal (e : ev) : bool :=
+  match e with
+  | EvReader _ | EvCaller _ _ | EvAcquire _ | EvRound | EvReply _ | EvCancel _ _ => true
+  | _ => false
+  end.
+
+(* A second caller reads the connection after socket.Reset and the status before the round
+   stores Ok; when it gets the lock it redials the healthy session; the replaced reader then
+   runs the disconnect path on the newest connection. *)
+Definition w_stuck : list ev :=
+  [EvCut; EvReader 0; EvReader 0;
+   EvCall false; EvCaller 0 false; EvAcquire (OwC 0); EvRound; EvRound;
+   EvCall false; EvCaller 1 false;
+   EvRound; EvRound; EvCaller 0 false; EvCaller 0 false; EvReply 0;
+   EvAcquire (OwC 1); EvRound; EvRound; EvRound; EvRound;
+   EvCaller 1 false; EvCaller 1 false; EvReply 1;
+   EvReader 1; EvReader 1; EvReader 1; EvReader 1; EvReader 1; EvReader 1;
+   EvAcquire (OwR 1); EvRound;
+   EvReader 2; EvReader 2;
+   EvReader 0; EvReader 0; EvReader 0; EvReader 0; EvAcquire (OwR 0); EvRound].
+
+Lemma reader_step_out s i : length (readers s) <= i -> reader_step s i = s.
+Proof. intros H. unfold reader_step. apply nth_error_None in H. rewrite H. reflexivity. Qed.
+Lemma caller_step_out s k w : length (calls s) <= k -> caller_step s k w = s.
+Proof. intros H. unfold caller_step. apply nth_error_None in H. rewrite H. reflexivity. Qed.
+Lemma reply_step_out s k : length (calls s) <= k -> reply_step s k = s.
+Proof. intros H. unfold reply_step. apply nth_error_None in H. rewrite H. reflexivity. Qed.
+Lemma cancel_out_r s i k : length (readers s) <= i -> step s (EvCancel i k) = s.
+Proof. intros H. cbn [step]. apply nth_error_None in H. rewrite H. reflexivity. Qed.
+Lemma acquire_out_r s i : length (readers s) <= i -> acquire s (OwR i) = s.
+Proof. intros H. unfold acquire. apply nth_error_None in H. rewrite H. destruct (lock s); reflexivity. Qed.
+Lemma acquire_out_c s k : length (calls s) <= k -> acquire s (OwC k) = s.
+Proof. intros H. unfold acquire. apply nth_error_None in H. rewrite H. destruct (lock s); reflexivity. Qed.
+
+Definition s_stuck : st :=
+  mkSt 2 SPassiveClosing 2 3 true [2; 1; 0; 0] IdUser [] 0 0 [(true, VA); (true, VA)] 2
+       [(1, true); (1, true)] [(0, RDone); (1, RDone); (2, RDone)]
+       [mkCall false true (CDone ROk); mkCall false true (CDone ROk)] None [] VA false.
+
+Lemma w_stuck_state : run (init 2 true [] VA) w_stuck = s_stuck.
+Proof. vm_compute. reflexivity. Qed.
+
+Lemma s_stuck_no_internal_step e : internal e = true -> step s_stuck e = s_stuck.
+Proof.
+  intros He. destruct e; try discriminate He; cbn [step].
+  - destruct i as [|[|[|i]]]; try reflexivity. apply reader_step_out. cbn. lia.
+  - destruct k as [|[|k]]; try reflexivity. apply caller_step_out. cbn. lia.
+  - destruct o as [i|k].
+    + destruct i as [|[|[|i]]]; try reflexivity. apply acquire_out_r. cbn. lia.
+    + destruct k as [|[|k]]; try reflexivity. apply acquire_out_c. cbn. lia.
+  - reflexivity.
+  - destruct k as [|[|k]]; try reflexivity. apply reply_step_out. cbn. lia.
+  - destruct i as [|[|[|i]]]; try reflexivity.
+    change (step s_stuck (EvCancel (S (S (S i))) k) = s_stuck). apply cancel_out_r. cbn. lia.
+Qed.
+
+Lemma w_stuck_lemma :
+  let s := run (init 2 true [] VA) w_stuck in
+  status_ s = SPassiveClosing /\ notified s = 0 /\ index s = [] /\ okrounds s = 2 /\
+  plan s = [] /\ pdef s = VA /\ quiescent s = true /\
+  forall e, internal e = true -> step s e = s.
+Proof.
+  cbv zeta. rewrite w_stuck_state. repeat split; try reflexivity.
+  apply s_stuck_no_internal_step.
+Qed.
+
+(* A writer-owned round is exhausted after a rejected hook replaced the socket's connection;
+   the reader's own redialForClient then returns true and D8 never runs. *)
+Definition w_exhausted : list ev :=
+  [EvCut; EvReader 0; EvReader 0;
+   EvCall false; EvCaller 0 false; EvAcquire (OwC 0); EvRound; EvRound; EvRound; EvRound; EvRound;
+   EvReader 0; EvReader 0; EvReader 0; EvReader 0; EvAcquire (OwR 0); EvRound].
+
+Lemma w_exhausted_lemma :
+  let s := run (init 1 true [VJ; VU] VU) w_exhausted in
+  status_ s = SRedialFailed /\ rounds s = [(2, false)] /\ notified s = 0 /\ dischooks s = 0 /\
+  quiescent s = true /\ nth_error (calls s) 0 = Some (mkCall false false (CDone RClosed)).
+Proof. vm_compute. repeat split; reflexivity. Qed.
+
+Lemma w_exhausted_indexed_lemma :
+  let s := run (init 1 false [VJ; VU] VU) w_exhausted in
+  status_ s = SRedialFailed /\ rounds s = [(2, false)] /\ notified s = 0 /\
+  index s = [IdAddr 0] /\ id s = IdAddr 1 /\ quiescent s = true.
+Proof. vm_compute. repeat split; reflexivity. Qed.
+
+(* The writer redials while the old reader stands between D1 and D6; the old reader then
+   removes the live session from the index, cancels a call sent on the new connection and
+   closes the new connection. *)
+Definition w_overlap : list ev :=
+  [EvCut; EvReader 0; EvReader 0;
+   EvCall true; EvCaller 0 false; EvAcquire (OwC 0); EvRound; EvRound; EvRound; EvRound;
+   EvCaller 0 false; EvCaller 0 false;
+   EvReader 0; EvReader 0; EvReader 0; EvReader 0].
+
+Lemma w_overlap_lemma :
+  let s1 := run (init 2 true [] VA) (firstn 12 w_overlap) in
+  let s := run (init 2 true [] VA) w_overlap in
+  (status_ s1 = SOk /\ mem (conn s1) (lost s1) = false /\ index s1 = [IdUser] /\
+   nth_error (calls s1) 0 = Some (mkCall true false (CAwait (conn s1)))) /\
+  (status_ s = SOk /\ health s = true /\ conn s = conn s1 /\ mem (conn s) (lost s) = true /\
+   index s = [] /\ okrounds s = 1 /\
+   nth_error (calls s) 0 = Some (mkCall true false (CDone RClosed))).
+Proof. vm_compute. repeat split; reflexivity. Qed.
